@@ -63,6 +63,9 @@ fn case_with(t: &mut Tape, st: &mut Stats, max_stmts: usize) -> Verdict {
     }
     if fatal.is_some() {
         st.class("exit_on_error-fatal");
+        if m.classes.contains("set_error-while-exit_on_error-is-on") {
+            st.class("fatal-error-after-set_error-in-exit_on_error-mode");
+        }
     }
     if file_mode {
         st.class("file-mode");
@@ -282,7 +285,7 @@ fn case_t(t: &mut Tape, st: &mut Stats) -> Verdict {
 pub fn property() -> Property {
     Property {
         id: "C10",
-        rule: "C04/C05 programs with failing commands planted at arbitrary statement positions (top level, function bodies, loop bodies, branches): trigger_error with plain and syntax-bearing messages (${..}, %, #) and library commands that fail on their own (array_get / array_pop / array_length on a missing handle, substring out of range, map_get and calc without arguments, the script-implemented array_join), with and without output variable, several in sequence, exit_on_error toggled mid-script (the state written as any truthy / falsy spelling), run from text and from file; (included) the same programs with the function definitions in an included file, the including script being a file or a text without a source of its own. Each failing line is followed by get_last_error / get_last_error_line / get_last_error_source reads and an emit. Oracle: reference interpreter (output variable 'false', latest error's message/line/source, continue with the next instruction; once exit_on_error is on the first error ends the run with Err(message, line, source)); library messages are taken from a direct call of the same command. Non-trivial: >= 2 errors or an error with function calls around; distinct by (script, mode)",
+        rule: "C04/C05 programs with failing commands planted at arbitrary statement positions (top level, function bodies, loop bodies, branches): trigger_error with plain and syntax-bearing messages (${..}, %, #) and library commands that fail on their own (array_get / array_pop / array_length on a missing handle, substring out of range, map_get and calc without arguments, the script-implemented array_join), with and without output variable, several in sequence, exit_on_error toggled mid-script (the state written as any truthy / falsy spelling), set_error statements in between (they replace the stored error and nothing else), run from text and from file; (included) the same programs with the function definitions in an included file, the including script being a file or a text without a source of its own. Each failing line is followed by get_last_error / get_last_error_line / get_last_error_source reads and an emit. Oracle: reference interpreter (output variable 'false', latest error's message/line/source, continue with the next instruction; once exit_on_error is on the first error ends the run with Err(message, line, source)); library messages are taken from a direct call of the same command. Non-trivial: >= 2 errors or an error with function calls around; distinct by (script, mode)",
         assumptions: &[
             "failing commands are not planted in condition position, and programs that reach one inside a function called in condition position are discarded",
             "expected message of a library error = the message of a direct call of the same command on a fresh context",
@@ -295,7 +298,7 @@ pub fn property() -> Property {
                     Tier::Thorough => Plan::Random { cases: 3_000_000, max_len: 900 },
                 },
                 case: case_q,
-                min_classes: &[("several-errors-in-sequence", 3000), ("exit_on_error-fatal", 1000), ("file-mode", 2000), ("error-with-function-calls-around", 3000), ("exit_on_error-state-spelled-other-than-true-false", 3000)],
+                min_classes: &[("several-errors-in-sequence", 3000), ("exit_on_error-fatal", 1000), ("file-mode", 2000), ("error-with-function-calls-around", 3000), ("exit_on_error-state-spelled-other-than-true-false", 3000), ("fatal-error-after-set_error-in-exit_on_error-mode", 80)],
             },
             Section {
                 name: "included",
